@@ -141,6 +141,8 @@ def property_oracle(toks, out, status, tab_len, opens=('LP', 'LB'), closes=('RP'
             if depth > 0:
                 exp = []
             else:
+                if '\n' not in val:
+                    return None       # NL token without a newline: outside the property's domain
                 c = indent_of(val, tab_len)
                 lv = open_levels()
                 top = max(lv)
